@@ -3,7 +3,7 @@
    (free-running, race-instrumented build), with the simulated KDC's issue log.  Data-race reports of the race detector
    are separate lines (ev = "race"): the model allows no unsynchronised access, so every report in gokrb5 code is
    rejected. *)
-EXTENDS Integers, Sequences, FiniteSets, TLC, Json
+EXTENDS Integers, Sequences, FiniteSets, TLC, Json, LockDiscipline
 CONSTANTS NShards
 Tr == ndJsonDeserialize("trace.ndjson")
 NLines == Len(Tr)
@@ -13,7 +13,11 @@ LT == INSTANCE LineTrace
 PairIssuedTogether(x, r) == \E k \in 1..Len(x.issued) : x.issued[k].tkt = r.tkt /\ x.issued[k].key = r.key /\ x.issued[k].spn = r.spn
 \* resolving KDC addresses returns a permutation of the configured servers (both are logged sorted)
 GetKDCsIsPermutation(x, r) == r.ok /\ r.count = Len(x.configured) /\ r.servers = x.configured
+\* the locks as the hooks report them: only the nestings the protocol has, and none held while a KDC is talked to
+LocksOK(x) == /\ \A i \in 1..Len(x.nestings) : NestingAllowed(x.nestings[i])
+              /\ x.kdcHolding = << >>
 RoundOK(x) == /\ ~x.deadlock
+              /\ LocksOK(x)
               /\ x.configUnchanged
               /\ \A i \in 1..Len(x.results) : LET r == x.results[i] IN
                     /\ r.panic = ""
